@@ -109,6 +109,9 @@ func (n Number) Int() (int64, error) {
 		return 0, errors.New("called Int() on decimal64 value")
 	}
 	if n.Negative {
+		if n.Value > AbsMinInt64 {
+			return 0, errors.New("signed integer overflow")
+		}
 		return -int64(n.Value), nil
 	}
 	if n.Value <= MaxInt64 {
